@@ -1,5 +1,389 @@
-(* C12 -- equivariance theorems are added when proved *)
-From PM Require Import Calculus.
-Theorem C12_placeholder : True.
-Proof. exact Logic.I. Qed.
-Print Assumptions C12_placeholder.
+(* C12 -- results do not depend on names, layout or equivalent spellings.  Statements only.
+
+   Model: theories/Analysis.v (typed statements, Analysis.func = [analyse]); specification:
+   theories/Calculus.v ([derive]).  The equivariance is proved for the SPECIFICATION (sections 1-4) and
+   transferred to the analysis (section 5) through the three statements that relate the two
+   (theories/An_stmts.v, proved in An_func.v from the statement-level simulation); they are explicit
+   premises FR / VS / VC of the theorems of section 5, not axioms.
+
+   Definitions used in the statements (theories/Equiv_base.v, Equiv_rel.v, Equiv_layout.v, Equiv.v):
+     rename_stmt rho s / rename_func rho f   rename every variable occurrence (for-header name lists
+                                             and mentions of no-flow statements included)
+     stmt_names s / func_names f             every name occurring (superset of stmt_vars / func_vars:
+                                             header names of for loops that the Variables walker drops)
+     plus_for_minus s / pfm_func f           every binary operator "-" spelled "+"
+     inj_on l rho      := forall a b, In a l -> In b l -> rho a = rho b -> a = b
+     same_elems V V'   := (forall v, In v V <-> In v V') /\ length V' = length V
+     oeq_all a a'      := both None, or Some A / Some A' with forall x y, A' x y = A x y
+     oeq_ren V rho a a':= both None, or Some A / Some A' with
+                          forall x y, In x V -> In y V -> A' (rho x) (rho y) = A x y
+     oeqV V a a'       := both None, or Some A / Some A' with eqV V A A';  deqV = same index + oeqV
+     fuel_ok f s       := An_func.fuel_ok: the derivation of s does not run out of the fuel f
+     sem_eq V s s'     := forall f f' cs idx, fuel_ok f s -> fuel_ok f' s' ->
+                            deqV V (derive f V s cs idx) (derive f' V s' cs idx)
+     seml V l l'       := the same for statement lists (Calculus.dlist) from any two finite accumulators
+                          that agree on V x V
+     tbl_get V t x y   := entry of the table t at the positions of the NAMES x, y in V
+     results_agree V rho r r' := see C12_results_agree_def below
+
+   do-while: `while` and `do-while` are one constructor (SWhile) of the statement grammar, so a loop
+   written the other way is the identical statement; there is no theorem to state. *)
+From Coq Require Import String List Bool Permutation.
+From PM Require Import Semiring Poly Rel Analysis Calculus Sem_stmts An_stmts.
+From PM Require Import Equiv_base Equiv_rel Equiv_layout Equiv Equiv_closed.
+From PM Require An_func.
+From PMGen Require Import RulesGen.
+Import ListNotations.
+
+(* ------------------------------------------------------------------ *)
+(* 1. the order of the variable list (the sorted order of the names) is irrelevant *)
+
+Theorem C12_order_permutation : forall V V', Permutation V V' -> same_elems V V'.
+Proof. exact perm_same_elems. Qed.
+
+Theorem C12_order_nodup : forall V V', NoDup V -> NoDup V' -> (forall v, In v V <-> In v V') -> same_elems V V'.
+Proof. exact nodup_same_elems. Qed.
+
+Theorem C12_order_smul : forall V V', same_elems V V' -> forall A B x y, smul V A B x y = smul V' A B x y.
+Proof. exact smul_perm. Qed.
+
+Theorem C12_order_smat_eqb : forall V V', same_elems V V' -> forall A B, smat_eqb V A B = smat_eqb V' A B.
+Proof. exact smat_eqb_perm. Qed.
+
+Theorem C12_order_sstar : forall V V', same_elems V V' -> forall A, oeq_all (sstar V A) (sstar V' A).
+Proof. exact sstar_perm. Qed.
+
+Theorem C12_order_w_ok : forall V V', same_elems V V' -> forall A, w_ok V A = w_ok V' A.
+Proof. exact w_ok_perm. Qed.
+
+Theorem C12_order_l_ok : forall V V', same_elems V V' -> forall A, l_ok V A = l_ok V' A.
+Proof. exact l_ok_perm. Qed.
+
+Theorem C12_order_l_extend : forall V V', same_elems V V' ->
+  forall X A u v, l_extend V X A u v = l_extend V' X A u v.
+Proof. exact l_extend_perm. Qed.
+
+(* same sites, same failures, pointwise equal matrices (everywhere, not only on V) *)
+Theorem C12_order_derive : forall V V', same_elems V V' -> forall fuel s cs idx,
+  snd (derive fuel V' s cs idx) = snd (derive fuel V s cs idx) /\
+  oeq_all (fst (derive fuel V s cs idx)) (fst (derive fuel V' s cs idx)).
+Proof. exact derive_perm. Qed.
+
+(* ------------------------------------------------------------------ *)
+(* 2. consistent renaming                                              *)
+
+Theorem C12_rename_stmt_vars : forall (P : string -> Prop) rho,
+  (forall a b, P a -> P b -> rho a = rho b -> a = b) ->
+  forall s, (forall v, In v (stmt_names s) -> P v) ->
+  stmt_vars (rename_stmt rho s) = map rho (stmt_vars s).
+Proof. exact stmt_vars_rename. Qed.
+
+Theorem C12_rename_loop_compat : forall (P : string -> Prop) rho,
+  (forall a b, P a -> P b -> rho a = rho b -> a = b) ->
+  forall i s c n b,
+  (forall v, In v i -> P v) -> (forall v, In v s -> P v) -> (forall v, In v c -> P v) ->
+  (forall v, In v n -> P v) -> (forall v, In v (stmt_names b) -> P v) ->
+  loop_compat (map rho i) (map rho s) (map rho c) (map rho n) (rename_stmt rho b) =
+  option_map rho (loop_compat i s c n b).
+Proof. exact loop_compat_rename. Qed.
+
+Theorem C12_rename_unary_rewrite : forall rho x op e,
+  unary_asgn_rewrite (rho x) op (rename_uarg rho e) = option_map (rename_stmt rho) (unary_asgn_rewrite x op e).
+Proof. exact unary_asgn_rewrite_rename. Qed.
+
+Theorem C12_stmt_vars_are_names : forall s v, In v (stmt_vars s) -> In v (stmt_names s).
+Proof. exact stmt_vars_names. Qed.
+
+(* the specification over the renamed variable list *)
+Theorem C12_rename_derive : forall rho V s,
+  inj_on V rho -> incl (stmt_names s) V ->
+  forall fuel cs idx,
+    snd (derive fuel (map rho V) (rename_stmt rho s) cs idx) = snd (derive fuel V s cs idx) /\
+    oeq_ren V rho (fst (derive fuel V s cs idx)) (fst (derive fuel (map rho V) (rename_stmt rho s) cs idx)).
+Proof. exact derive_rename. Qed.
+
+(* ... and over the renamed variables in any other order (e.g. sorted again, as Analysis.func does);
+   N = the names rho is injective on *)
+Theorem C12_rename_derive_any_order : forall rho N V V' s,
+  inj_on N rho -> incl V N -> incl (stmt_names s) N ->
+  (forall z, In z V' <-> In z (map rho V)) -> length V' = length V ->
+  forall fuel cs idx,
+    snd (derive fuel V' (rename_stmt rho s) cs idx) = snd (derive fuel V s cs idx) /\
+    oeq_ren N rho (fst (derive fuel V s cs idx)) (fst (derive fuel V' (rename_stmt rho s) cs idx)).
+Proof. exact derive_rename_gen. Qed.
+
+(* ------------------------------------------------------------------ *)
+(* 3. "-" spelled "+"                                                  *)
+
+Theorem C12_minus_rule_table : forall y z, cv_lookup CV_TABLE "-" y z = cv_lookup CV_TABLE "+" y z.
+Proof. exact cv_lookup_minus_plus. Qed.
+
+Theorem C12_minus_stmt_vars : forall s, stmt_vars (plus_for_minus s) = stmt_vars s.
+Proof. exact stmt_vars_pfm. Qed.
+
+Theorem C12_minus_derive : forall fuel V s cs idx,
+  derive fuel V (plus_for_minus s) cs idx = derive fuel V s cs idx.
+Proof. exact derive_pfm. Qed.
+
+(* ------------------------------------------------------------------ *)
+(* 4. layout                                                           *)
+
+Theorem C12_fuel_irrelevant : forall f1 f2 V s cs idx,
+  fuel_ok f1 s -> fuel_ok f2 s -> derive f1 V s cs idx = derive f2 V s cs idx.
+Proof. exact derive_fuel_irrelevant. Qed.
+
+Theorem C12_fuel_exists : forall s, exists f, fuel_ok f s.
+Proof. exact fuel_ok_exists. Qed.
+
+(* { s } against s, one derivation step, no hypothesis *)
+Theorem C12_block_single_step : forall V fuel s cs idx,
+  deqV V (derive (S fuel) V (SBlock [s]) cs idx) (derive fuel V s cs idx).
+Proof. exact derive_block_single. Qed.
+
+Theorem C12_block_single : forall V s, sem_eq V (SBlock [s]) s.
+Proof. exact layout_block_single. Qed.
+
+Theorem C12_insert_skip : forall V l1 m l2, seml V (l1 ++ SSkip m :: l2) (l1 ++ l2).
+Proof. exact layout_insert_skip. Qed.
+
+Theorem C12_insert_empty_block : forall V l1 l2, seml V (l1 ++ SBlock [] :: l2) (l1 ++ l2).
+Proof. exact layout_insert_empty_block. Qed.
+
+Theorem C12_flatten : forall V l1 l2 l3, seml V (l1 ++ [SBlock l2] ++ l3) (l1 ++ l2 ++ l3).
+Proof. exact layout_flatten. Qed.
+
+Theorem C12_block_insert_skip : forall V l1 m l2, sem_eq V (SBlock (l1 ++ SSkip m :: l2)) (SBlock (l1 ++ l2)).
+Proof. exact layout_block_insert_skip. Qed.
+
+Theorem C12_block_insert_empty_block : forall V l1 l2,
+  sem_eq V (SBlock (l1 ++ SBlock [] :: l2)) (SBlock (l1 ++ l2)).
+Proof. exact layout_block_insert_empty_block. Qed.
+
+Theorem C12_block_flatten : forall V l1 l2 l3,
+  sem_eq V (SBlock (l1 ++ [SBlock l2] ++ l3)) (SBlock (l1 ++ l2 ++ l3)).
+Proof. exact layout_block_flatten. Qed.
+
+(* sem_eq / seml are equivalences and congruences: a layout change anywhere in a program *)
+Theorem C12_sem_refl : forall V s, sem_eq V s s.
+Proof. exact sem_refl. Qed.
+Theorem C12_sem_sym : forall V s s', sem_eq V s s' -> sem_eq V s' s.
+Proof. exact sem_sym. Qed.
+Theorem C12_sem_trans : forall V s1 s2 s3, sem_eq V s1 s2 -> sem_eq V s2 s3 -> sem_eq V s1 s3.
+Proof. exact sem_trans. Qed.
+Theorem C12_seml_refl : forall V l, seml V l l.
+Proof. exact seml_refl. Qed.
+Theorem C12_seml_sym : forall V l l', seml V l l' -> seml V l' l.
+Proof. exact seml_sym. Qed.
+Theorem C12_seml_trans : forall V l1 l2 l3, seml V l1 l2 -> seml V l2 l3 -> seml V l1 l3.
+Proof. exact seml_trans. Qed.
+Theorem C12_seml_cons : forall V s s' l l', sem_eq V s s' -> seml V l l' -> seml V (s :: l) (s' :: l').
+Proof. exact seml_cons. Qed.
+Theorem C12_seml_skip : forall V m l l', seml V l l' -> seml V (SSkip m :: l) l'.
+Proof. exact seml_skip. Qed.
+Theorem C12_seml_flat : forall V l2 l l', seml V (l2 ++ l) l' -> seml V (SBlock l2 :: l) l'.
+Proof. exact seml_flat. Qed.
+Theorem C12_sem_unwrap : forall V s s', sem_eq V s s' -> sem_eq V (SBlock [s]) s'.
+Proof. exact sem_unwrap. Qed.
+Theorem C12_sem_block : forall V l l', seml V l l' -> sem_eq V (SBlock l) (SBlock l').
+Proof. exact sem_block. Qed.
+Theorem C12_sem_if : forall V t t' e e', seml V t t' -> seml V e e' -> sem_eq V (SIf t e) (SIf t' e').
+Proof. exact sem_if. Qed.
+Theorem C12_sem_while : forall V cv cv' b b', sem_eq V b b' -> sem_eq V (SWhile cv b) (SWhile cv' b').
+Proof. exact sem_while. Qed.
+Theorem C12_sem_for : forall V i s c n i' s' c' n' b b',
+  sem_eq V b b' -> loop_compat i s c n b = loop_compat i' s' c' n' b' ->
+  sem_eq V (SFor i s c n b) (SFor i' s' c' n' b').
+Proof. exact sem_for. Qed.
+
+(* ------------------------------------------------------------------ *)
+(* 5. the analysis                                                     *)
+
+Theorem C12_results_agree_def : forall V rho r r',
+  results_agree V rho r r' <->
+  (fr_infinite r = fr_infinite r' /\
+   (fr_infinite r = false ->
+     fr_index r = fr_index r' /\
+     exists rl rl', fr_rel r = Some rl /\ fr_rel r' = Some rl' /\
+       forall cs, vec_ok (fr_index r) cs ->
+         accepted (fr_inf_deltas r) cs = accepted (fr_inf_deltas r') cs /\
+         (accepted (fr_inf_deltas r) cs = true ->
+            forall x y, In x V -> In y V ->
+              tbl_get (fr_vars r') (apply_choice rl' (choice_of_list cs)) (rho x) (rho y) =
+              tbl_get (fr_vars r) (apply_choice rl (choice_of_list cs)) x y))).
+Proof. exact results_agree_unfold. Qed.
+
+(* the form of completeness used below contains the restricted one of An_stmts.v *)
+Theorem C12_premise_vc : An_func.verdict_complete_all_stmt -> verdict_complete_stmt.
+Proof. exact vca_implies_vc. Qed.
+
+(* consistent renaming (rho injective on the names of the function; proper identifiers on both sides):
+   same verdict; when not infinite the same degree, the same accepted choice vectors, and at every
+   accepted vector the matrix entry at (rho x, rho y) of the renamed function is the entry at (x, y) *)
+Theorem C12_rename :
+  forall (FR : finite_result_stmt) (VS : verdict_sound_stmt) (VC : An_func.verdict_complete_all_stmt)
+         rho f stop stop' r r',
+    inj_on (func_names f) rho -> func_ok f -> func_ok (rename_func rho f) ->
+    analyse f stop = ROk r -> analyse (rename_func rho f) stop' = ROk r' ->
+    results_agree (func_vars f) rho r r'.
+Proof. exact analyse_rename. Qed.
+
+Theorem C12_minus :
+  forall (FR : finite_result_stmt) (VS : verdict_sound_stmt) (VC : An_func.verdict_complete_all_stmt)
+         f stop stop' r r',
+    func_ok f -> analyse f stop = ROk r -> analyse (pfm_func f) stop' = ROk r' ->
+    results_agree (func_vars f) (fun x => x) r r'.
+Proof. exact analyse_pfm. Qed.
+
+(* same variable order on both sides here, so the reported tables are equal as they are *)
+Theorem C12_minus_tables :
+  forall (FR : finite_result_stmt) f stop stop' r r',
+    func_ok f -> analyse f stop = ROk r -> analyse (pfm_func f) stop' = ROk r' ->
+    fr_infinite r = false -> fr_infinite r' = false ->
+    fr_vars r = fr_vars r' /\
+    exists rl rl', fr_rel r = Some rl /\ fr_rel r' = Some rl' /\
+      forall cs, vec_ok (fr_index r) cs -> accepted (fr_inf_deltas r) cs = true ->
+        apply_choice rl' (choice_of_list cs) = apply_choice rl (choice_of_list cs).
+Proof. exact analyse_pfm_tables. Qed.
+
+(* layout variants: same variables, bodies related by seml, nesting within the fuel of the analysis *)
+Theorem C12_layout :
+  forall (FR : finite_result_stmt) (VS : verdict_sound_stmt) (VC : An_func.verdict_complete_all_stmt)
+         f f' stop stop' r r',
+    func_ok f ->
+    ((forall v, In v (func_vars f) <-> In v (func_vars f')) /\
+     seml (func_vars f) (f_body f) (f_body f') /\
+     Forall (fuel_ok depth_fuel) (f_body f) /\ Forall (fuel_ok depth_fuel) (f_body f')) ->
+    analyse f stop = ROk r -> analyse f' stop' = ROk r' ->
+    results_agree (func_vars f) (fun x => x) r r'.
+Proof. exact analyse_layout. Qed.
+
+Theorem C12_empty_statement :
+  forall (FR : finite_result_stmt) (VS : verdict_sound_stmt) (VC : An_func.verdict_complete_all_stmt)
+         f l1 l2 stop stop' r r',
+    func_ok (with_body f (l1 ++ l2)) -> Forall (fuel_ok depth_fuel) (l1 ++ l2) ->
+    analyse (with_body f (l1 ++ l2)) stop = ROk r ->
+    analyse (with_body f (l1 ++ SSkip [] :: l2)) stop' = ROk r' ->
+    results_agree (func_vars (with_body f (l1 ++ l2))) (fun x => x) r r'.
+Proof. exact analyse_empty_statement. Qed.
+
+Theorem C12_braces :
+  forall (FR : finite_result_stmt) (VS : verdict_sound_stmt) (VC : An_func.verdict_complete_all_stmt)
+         f l1 l2 l3 stop stop' r r',
+    func_ok (with_body f (l1 ++ l2 ++ l3)) ->
+    Forall (fuel_ok depth_fuel) (l1 ++ l2 ++ l3) -> Forall (fuel_ok depth_fuel) (l1 ++ [SBlock l2] ++ l3) ->
+    analyse (with_body f (l1 ++ l2 ++ l3)) stop = ROk r ->
+    analyse (with_body f (l1 ++ [SBlock l2] ++ l3)) stop' = ROk r' ->
+    results_agree (func_vars (with_body f (l1 ++ l2 ++ l3))) (fun x => x) r r'.
+Proof. exact analyse_braces. Qed.
+
+(* the result of a function does not mention any other function: the results of a program are a map
+   over its functions, so reordering the functions reorders the results and changes none *)
+Theorem C12_function_independent : forall fs fs' stop,
+  Permutation fs fs' ->
+  Permutation (analyse_program fs stop) (analyse_program fs' stop) /\
+  (forall n f, In (n, f) fs -> In (n, analyse f stop) (analyse_program fs' stop)).
+Proof. exact function_independent. Qed.
+
+(* ---- the same with the premises discharged (An_closed.v: the closed simulation theorems) ---- *)
+
+Theorem C12_rename_closed : forall rho f stop stop' r r',
+    inj_on (func_names f) rho -> func_ok f -> func_ok (rename_func rho f) ->
+    analyse f stop = ROk r -> analyse (rename_func rho f) stop' = ROk r' ->
+    results_agree (func_vars f) rho r r'.
+Proof. exact analyse_rename_closed. Qed.
+
+Theorem C12_minus_closed : forall f stop stop' r r',
+    func_ok f -> analyse f stop = ROk r -> analyse (pfm_func f) stop' = ROk r' ->
+    results_agree (func_vars f) (fun x => x) r r'.
+Proof. exact analyse_pfm_closed. Qed.
+
+Theorem C12_minus_tables_closed : forall f stop stop' r r',
+    func_ok f -> analyse f stop = ROk r -> analyse (pfm_func f) stop' = ROk r' ->
+    fr_infinite r = false -> fr_infinite r' = false ->
+    fr_vars r = fr_vars r' /\
+    exists rl rl', fr_rel r = Some rl /\ fr_rel r' = Some rl' /\
+      forall cs, vec_ok (fr_index r) cs -> accepted (fr_inf_deltas r) cs = true ->
+        apply_choice rl' (choice_of_list cs) = apply_choice rl (choice_of_list cs).
+Proof. exact analyse_pfm_tables_closed. Qed.
+
+Theorem C12_layout_closed : forall f f' stop stop' r r',
+    func_ok f ->
+    ((forall v, In v (func_vars f) <-> In v (func_vars f')) /\
+     seml (func_vars f) (f_body f) (f_body f') /\
+     Forall (fuel_ok depth_fuel) (f_body f) /\ Forall (fuel_ok depth_fuel) (f_body f')) ->
+    analyse f stop = ROk r -> analyse f' stop' = ROk r' ->
+    results_agree (func_vars f) (fun x => x) r r'.
+Proof. exact analyse_layout_closed. Qed.
+
+Theorem C12_empty_statement_closed : forall f l1 l2 stop stop' r r',
+    func_ok (with_body f (l1 ++ l2)) -> Forall (fuel_ok depth_fuel) (l1 ++ l2) ->
+    analyse (with_body f (l1 ++ l2)) stop = ROk r ->
+    analyse (with_body f (l1 ++ SSkip [] :: l2)) stop' = ROk r' ->
+    results_agree (func_vars (with_body f (l1 ++ l2))) (fun x => x) r r'.
+Proof. exact analyse_empty_statement_closed. Qed.
+
+Theorem C12_braces_closed : forall f l1 l2 l3 stop stop' r r',
+    func_ok (with_body f (l1 ++ l2 ++ l3)) ->
+    Forall (fuel_ok depth_fuel) (l1 ++ l2 ++ l3) -> Forall (fuel_ok depth_fuel) (l1 ++ [SBlock l2] ++ l3) ->
+    analyse (with_body f (l1 ++ l2 ++ l3)) stop = ROk r ->
+    analyse (with_body f (l1 ++ [SBlock l2] ++ l3)) stop' = ROk r' ->
+    results_agree (func_vars (with_body f (l1 ++ l2 ++ l3))) (fun x => x) r r'.
+Proof. exact analyse_braces_closed. Qed.
+
+Print Assumptions C12_order_permutation.
+Print Assumptions C12_order_nodup.
+Print Assumptions C12_order_smul.
+Print Assumptions C12_order_smat_eqb.
+Print Assumptions C12_order_sstar.
+Print Assumptions C12_order_w_ok.
+Print Assumptions C12_order_l_ok.
+Print Assumptions C12_order_l_extend.
+Print Assumptions C12_order_derive.
+Print Assumptions C12_rename_stmt_vars.
+Print Assumptions C12_rename_loop_compat.
+Print Assumptions C12_rename_unary_rewrite.
+Print Assumptions C12_stmt_vars_are_names.
+Print Assumptions C12_rename_derive.
+Print Assumptions C12_rename_derive_any_order.
+Print Assumptions C12_minus_rule_table.
+Print Assumptions C12_minus_stmt_vars.
+Print Assumptions C12_minus_derive.
+Print Assumptions C12_fuel_irrelevant.
+Print Assumptions C12_fuel_exists.
+Print Assumptions C12_block_single_step.
+Print Assumptions C12_block_single.
+Print Assumptions C12_insert_skip.
+Print Assumptions C12_insert_empty_block.
+Print Assumptions C12_flatten.
+Print Assumptions C12_block_insert_skip.
+Print Assumptions C12_block_insert_empty_block.
+Print Assumptions C12_block_flatten.
+Print Assumptions C12_sem_refl.
+Print Assumptions C12_sem_sym.
+Print Assumptions C12_sem_trans.
+Print Assumptions C12_seml_refl.
+Print Assumptions C12_seml_sym.
+Print Assumptions C12_seml_trans.
+Print Assumptions C12_seml_cons.
+Print Assumptions C12_seml_skip.
+Print Assumptions C12_seml_flat.
+Print Assumptions C12_sem_unwrap.
+Print Assumptions C12_sem_block.
+Print Assumptions C12_sem_if.
+Print Assumptions C12_sem_while.
+Print Assumptions C12_sem_for.
+Print Assumptions C12_results_agree_def.
+Print Assumptions C12_premise_vc.
+Print Assumptions C12_rename.
+Print Assumptions C12_minus.
+Print Assumptions C12_minus_tables.
+Print Assumptions C12_layout.
+Print Assumptions C12_empty_statement.
+Print Assumptions C12_braces.
+Print Assumptions C12_function_independent.
+Print Assumptions C12_rename_closed.
+Print Assumptions C12_minus_closed.
+Print Assumptions C12_minus_tables_closed.
+Print Assumptions C12_layout_closed.
+Print Assumptions C12_empty_statement_closed.
+Print Assumptions C12_braces_closed.
